@@ -626,3 +626,20 @@ func sortedFnNames(e *Engine, m map[*ssa.Function]bool) []string {
 	sort.Strings(out)
 	return out
 }
+
+// aliasRule runs another property's rule and re-labels the obligations it produces (optionally only those whose construct
+// satisfies keep): one structural fact often is a necessary condition of several properties.
+func aliasRule(id string, run func(*Engine), keep func(construct string) bool) func(*Engine) {
+	return func(e *Engine) {
+		before := len(e.obs)
+		run(e)
+		kept := e.obs[:before:before]
+		for _, o := range e.obs[before:] {
+			if keep == nil || keep(o.Construct) {
+				o.Rule = id
+				kept = append(kept, o)
+			}
+		}
+		e.obs = kept
+	}
+}
